@@ -34,6 +34,10 @@
 (*   KF_NoReloadMutex  nothing excludes two reload commands from running   *)
 (*                     at the same time (shared flags, shared cancel list, *)
 (*                     one wait group);                                    *)
+(*   KF_PortFreedAfterDone the listener loop announces its end to the wait  *)
+(*                     group BEFORE it closes its socket, so BackendWait   *)
+(*                     can return while the port is still bound and the    *)
+(*                     listener of the new file cannot be started;         *)
 (*   KF_MidEstablishLeak (never found; seeded/c11-backend-cancel-keeps-    *)
 (*                     connection) a session cancelled between conn_add    *)
 (*                     and established leaves its connection entry.        *)
@@ -46,10 +50,11 @@ CONSTANTS Ctl,                \* control sessions that may issue reload, e.g. {1
           MaxSess,            \* backend sessions ever created
           MaxFail,            \* spontaneous session failures (link loss) in a behaviour
           EditNames,          \* the file contents the editor may write
-          KF_StaleFlags, KF_NoReloadMutex, KF_MidEstablishLeak,
+          KF_StaleFlags, KF_NoReloadMutex, KF_PortFreedAfterDone, KF_MidEstablishLeak,
           DumpFile            \* "" or the NDJSON file the replay scenarios are written to
 
-\* backend entries: a listener (peer "c" dials in), a dialer to peer "b", the same dialer with another cost, a dialer to "d"
+\* backend entries: a listener (peer "c" dials in), a dialer to peer "b", the same dialer with other attributes (allowed
+\* peers; a changed cost would have to be changed on the peer as well), a dialer to "d"
 Entries == {"L", "D", "Dc", "E"}
 PeerOf(e) == CASE e = "L" -> "c" [] e \in {"D", "Dc"} -> "b" [] e = "E" -> "d"
 Peers == {"b", "c", "d"}
@@ -82,11 +87,12 @@ VARIABLES fname,      \* name of the file content on disk
           sess,       \* backend sessions: id -> [i (instance), peer, phase, ctx]
           conns,      \* s.connections: peer -> session id (0 = none)
           rl,         \* per control session: the reload in progress
+          port,       \* the listener's TCP port: "free" | "bound" | "closing" (its loop has left the wait group, the socket is still open)
           cnt         \* counters: next ids and budgets
-vars == <<fname, flags, inst, cancels, sess, conns, rl, cnt>>
+vars == <<fname, flags, inst, cancels, sess, conns, rl, port, cnt>>
 file == FileOf(fname)
 
-Idle == [pc |-> "idle", reply |-> "-", fchk |-> "start", fstart |-> "start", todo |-> <<>>, overlap |-> FALSE, clean |-> TRUE, started |-> <<>>, n |-> 0]
+Idle == [pc |-> "idle", reply |-> "-", fchk |-> "start", fstart |-> "start", todo |-> <<>>, overlap |-> FALSE, clean |-> TRUE, started |-> <<>>, n |-> 0, spurious |-> FALSE]
 
 Init ==
   /\ fname = "start"
@@ -96,6 +102,7 @@ Init ==
   /\ sess = << >>
   /\ conns = [p \in Peers |-> 0]
   /\ rl = [r \in Ctl |-> Idle]
+  /\ port = "bound"
   /\ cnt = [inst |-> 3, sess |-> 1, reloads |-> 0, edits |-> 0, fails |-> 0]
 
 Active(r) == rl[r].pc \notin {"idle", "done"}
@@ -105,7 +112,7 @@ SomeOtherActive(r) == \E q \in Ctl \ {r} : Active(q)
 EditFile(n) ==
   /\ cnt.edits < MaxEdits /\ n # fname
   /\ fname' = n /\ cnt' = [cnt EXCEPT !.edits = @ + 1]
-  /\ UNCHANGED <<flags, inst, cancels, sess, conns, rl>>
+  /\ UNCHANGED <<flags, inst, cancels, sess, conns, rl, port>>
 
 \* ---------------------------------------------------------------- the reload command
 Begin(r) ==
@@ -114,7 +121,7 @@ Begin(r) ==
   /\ rl' = [q \in Ctl |-> IF q = r THEN [Idle EXCEPT !.pc = "parse", !.overlap = SomeOtherActive(r), !.n = cnt.reloads + 1]
                           ELSE IF Active(q) THEN [rl[q] EXCEPT !.overlap = TRUE] ELSE rl[q]]
   /\ cnt' = [cnt EXCEPT !.reloads = @ + 1]
-  /\ UNCHANGED <<fname, flags, inst, cancels, sess, conns>>
+  /\ UNCHANGED <<fname, flags, inst, cancels, sess, conns, port>>
 
 Finish(r, reply) == [rl EXCEPT ![r].pc = "done", ![r].reply = reply]
 
@@ -122,7 +129,7 @@ Finish(r, reply) == [rl EXCEPT ![r].pc = "done", ![r].reply = reply]
 Parse(r) ==
   /\ rl[r].pc = "parse"
   /\ rl' = IF file.parse # "ok" \/ file.badcost THEN Finish(r, "error4_parse") ELSE [rl EXCEPT ![r].pc = "check"]
-  /\ UNCHANGED <<fname, flags, inst, cancels, sess, conns, cnt>>
+  /\ UNCHANGED <<fname, flags, inst, cancels, sess, conns, port, cnt>>
 
 \* checkReload: the file is read again; items are visited in file order, the first offending one ends the check
 FlagsAfterP(f, fl) ==
@@ -143,14 +150,14 @@ Check(r) ==
           /\ flags' = IF KF_StaleFlags THEN FlagsAfterCheck(file) ELSE ClearedFlags   \* as found the flags set so far stay
      ELSE /\ rl' = [rl EXCEPT ![r].pc = "absent", ![r].fchk = fname]
           /\ flags' = FlagsAfterCheck(file)
-  /\ UNCHANGED <<fname, inst, cancels, sess, conns, cnt>>
+  /\ UNCHANGED <<fname, inst, cancels, sess, conns, port, cnt>>
 
 \* cfgAbsent: an item whose flag is not set has been removed; the flags are cleared on the way out
 Absent(r) ==
   /\ rl[r].pc = "absent"
   /\ rl' = IF \E i \in ItemSet : ~flags[i] THEN Finish(r, "error3_removed") ELSE [rl EXCEPT ![r].pc = "cancel"]
   /\ flags' = ClearedFlags
-  /\ UNCHANGED <<fname, inst, cancels, sess, conns, cnt>>
+  /\ UNCHANGED <<fname, inst, cancels, sess, conns, port, cnt>>
 
 \* CancelBackends, first half: every registered cancel function is called (contexts of the backends and of their sessions)
 Cancel(r) ==
@@ -158,7 +165,7 @@ Cancel(r) ==
   /\ inst' = [i \in DOMAIN inst |-> IF i \in cancels THEN [inst[i] EXCEPT !.ctx = "cancelled"] ELSE inst[i]]
   /\ sess' = [s \in DOMAIN sess |-> IF sess[s].i \in cancels THEN [sess[s] EXCEPT !.ctx = "cancelled"] ELSE sess[s]]
   /\ rl' = [rl EXCEPT ![r].pc = "wait"]
-  /\ UNCHANGED <<fname, flags, cancels, conns, cnt>>
+  /\ UNCHANGED <<fname, flags, cancels, conns, port, cnt>>
 
 \* CancelBackends, second half: BackendWait returns when the ONE wait group of the node is at zero - no backend loop and no
 \* session goroutine of any backend is left; then the cancel list is emptied
@@ -167,26 +174,28 @@ Wait(r) ==
   /\ DOMAIN inst = {} /\ DOMAIN sess = {}
   /\ cancels' = {}
   /\ rl' = [rl EXCEPT ![r].pc = "start", ![r].clean = (\A p \in Peers : conns[p] = 0)]
-  /\ UNCHANGED <<fname, flags, inst, sess, conns, cnt>>
+  /\ UNCHANGED <<fname, flags, inst, sess, conns, port, cnt>>
 
 \* PreReload + Reload: the file is read a third time, then one AddBackend per backend entry in file order
 StartParse(r) ==
   /\ rl[r].pc = "start"
   /\ rl' = IF file.parse # "ok" \/ file.badcost THEN Finish(r, "error4_after_cancel")
            ELSE [rl EXCEPT ![r].pc = "starting", ![r].todo = file.be, ![r].fstart = fname]
-  /\ UNCHANGED <<fname, flags, inst, cancels, sess, conns, cnt>>
+  /\ UNCHANGED <<fname, flags, inst, cancels, sess, conns, port, cnt>>
 
 StartOne(r) ==
   /\ rl[r].pc = "starting"
   /\ IF rl[r].todo = <<>>
-     THEN /\ rl' = Finish(r, "success") /\ UNCHANGED <<inst, cancels, cnt>>
+     THEN /\ rl' = Finish(r, "success") /\ UNCHANGED <<inst, cancels, cnt, port>>
      ELSE LET e == Head(rl[r].todo) IN
           IF e \in FileOf(rl[r].fstart).startfail
-             \/ (e = "L" /\ \E i \in DOMAIN inst : inst[i].e = "L")     \* the port is still / already bound by a listener of this node
-          THEN /\ rl' = Finish(r, "error4_after_cancel") /\ UNCHANGED <<inst, cancels, cnt>>
+             \/ (e = "L" /\ port # "free")                            \* "address already in use": the port is still / already bound
+          THEN /\ rl' = [Finish(r, "error4_after_cancel") EXCEPT ![r].spurious = (e \notin FileOf(rl[r].fstart).startfail)]
+               /\ UNCHANGED <<inst, cancels, cnt, port>>
           ELSE /\ inst' = inst @@ (cnt.inst :> [e |-> e, ctx |-> "live"])
                /\ cancels' = cancels \cup {cnt.inst}
                /\ cnt' = [cnt EXCEPT !.inst = @ + 1]
+               /\ port' = IF e = "L" THEN "bound" ELSE port
                /\ rl' = [rl EXCEPT ![r].todo = Tail(@), ![r].started = Append(@, e)]
   /\ UNCHANGED <<fname, flags, sess, conns>>
 
@@ -199,7 +208,7 @@ NewSession(i) ==
   /\ ~\E s \in DOMAIN sess : sess[s].i = i
   /\ sess' = sess @@ (cnt.sess :> [i |-> i, peer |-> PeerOf(inst[i].e), phase |-> "fresh", ctx |-> "live"])
   /\ cnt' = [cnt EXCEPT !.sess = @ + 1]
-  /\ UNCHANGED <<fname, flags, inst, cancels, conns, rl>>
+  /\ UNCHANGED <<fname, flags, inst, cancels, conns, rl, port>>
 
 Drop(s) == [t \in DOMAIN sess \ {s} |-> sess[t]]
 
@@ -209,12 +218,12 @@ Register(s) ==
   /\ IF conns[sess[s].peer] = 0
      THEN /\ conns' = [conns EXCEPT ![sess[s].peer] = s] /\ sess' = [sess EXCEPT ![s].phase = "registered"]
      ELSE /\ sess' = Drop(s) /\ UNCHANGED conns            \* "already connected": rejected, nothing entered
-  /\ UNCHANGED <<fname, flags, inst, cancels, rl, cnt>>
+  /\ UNCHANGED <<fname, flags, inst, cancels, rl, port, cnt>>
 
 Establish(s) ==
   /\ s \in DOMAIN sess /\ sess[s].phase = "registered" /\ sess[s].ctx = "live"
   /\ sess' = [sess EXCEPT ![s].phase = "established"]
-  /\ UNCHANGED <<fname, flags, inst, cancels, conns, rl, cnt>>
+  /\ UNCHANGED <<fname, flags, inst, cancels, conns, rl, port, cnt>>
 
 \* the session ends: its context was cancelled, or the link failed; removeConnection deletes the peer's entry
 End(s) ==
@@ -225,15 +234,20 @@ End(s) ==
               ELSE IF KF_MidEstablishLeak /\ sess[s].phase = "registered" /\ sess[s].ctx = "cancelled" THEN conns
               ELSE [conns EXCEPT ![sess[s].peer] = 0]
   /\ sess' = Drop(s)
-  /\ UNCHANGED <<fname, flags, inst, cancels, rl>>
+  /\ UNCHANGED <<fname, flags, inst, cancels, rl, port>>
 
 \* the backend's own goroutines leave once the context is cancelled and the sessions are gone (runProtocolWg, then Done)
 InstExit(i) ==
   /\ i \in DOMAIN inst /\ inst[i].ctx = "cancelled" /\ ~\E s \in DOMAIN sess : sess[s].i = i
   /\ inst' = [j \in DOMAIN inst \ {i} |-> inst[j]]
+  \* the listener loop's deferred clean-up: wait group first, socket second (as found) - or the socket first
+  /\ port' = IF inst[i].e # "L" THEN port ELSE IF KF_PortFreedAfterDone THEN "closing" ELSE "free"
   /\ UNCHANGED <<fname, flags, cancels, sess, conns, rl, cnt>>
+PortClosed == /\ port = "closing" /\ port' = "free"
+              /\ UNCHANGED <<fname, flags, inst, cancels, sess, conns, rl, cnt>>
 
-SessStep == \/ \E i \in DOMAIN inst : NewSession(i) \/ InstExit(i)
+SessStep == \/ PortClosed
+            \/ \E i \in DOMAIN inst : NewSession(i) \/ InstExit(i)
             \/ \E s \in DOMAIN sess : Register(s) \/ Establish(s) \/ End(s)
 
 Next == \/ \E n \in EditNames : EditFile(n)
@@ -242,7 +256,7 @@ Next == \/ \E n \in EditNames : EditFile(n)
 Spec == Init /\ [][Next]_vars
 \* fairness for the liveness configuration: reload steps and session steps are taken when possible (not the failures)
 FairSpec == Spec /\ \A r \in Ctl : WF_vars(Parse(r) \/ Check(r) \/ Absent(r) \/ Cancel(r) \/ Wait(r) \/ StartParse(r) \/ StartOne(r))
-                 /\ WF_vars(\E i \in DOMAIN inst : NewSession(i) \/ InstExit(i))
+                 /\ WF_vars(PortClosed \/ \E i \in DOMAIN inst : NewSession(i) \/ InstExit(i))
                  /\ WF_vars(\E s \in DOMAIN sess : Register(s) \/ Establish(s) \/ (sess[s].ctx = "cancelled" /\ End(s)))
 
 \* ---------------------------------------------------------------- properties
@@ -268,6 +282,8 @@ AcceptedExact ==
 \* with two reloads at once (no exclusion as found): a backend entry is never started twice, every started backend can be cancelled
 NoDuplicateBackend == \A e \in Entries : Cardinality({i \in DOMAIN inst : inst[i].e = e /\ inst[i].ctx = "live"}) <= 1
 EveryBackendCancellable == (\A r \in Ctl : rl[r].pc \notin {"wait", "start", "starting"}) => \A i \in DOMAIN inst : inst[i].ctx = "live" => i \in cancels
+\* a reload fails after the cancellation only for a reason that is in the file (an entry that cannot be started)
+NoSpuriousStartFailure == \A r \in Ctl : ~rl[r].spurious \/ rl[r].overlap
 \* a reload that fails after the cancellation leaves the node with fewer backends than either file (named, not required)
 FailedAfterCancelKeepsBackends == \A r \in Ctl : rl[r].reply = "error4_after_cancel" => DOMAIN inst # {}
 \* liveness (FairSpec, no failures): every reload ends, and afterwards the peers of the running backends are established again
@@ -301,10 +317,13 @@ RunScenario(edits, fl, run) ==
   ELSE LET r == SeqReload(Head(edits), fl, run) IN
        <<[file |-> Head(edits), reply |-> r.reply, run |-> r.run, peers |-> { PeerOf(r.run[k]) : k \in 1..Len(r.run) }]>> \o RunScenario(Tail(edits), r.fl, r.run)
 ScenVec(edits, mode) == [edits |-> edits, mode |-> mode, expect |-> RunScenario(edits, ClearedFlags, <<"L", "D">>)]
-\* modes: plain (one control session, idle mesh), mid (a backend session is held between conn_add and established while the
+\* modes: plain (one control session, idle mesh), storm (the same without waiting for the mesh between the reloads), mid (a backend session is held between conn_add and established while the
 \* reload cancels), overlap (a second control session issues reload at the same time), probes (other sessions keep asking)
 Scenarios ==
   { ScenVec(<<a>>, m) : a \in EditNames, m \in {"plain", "mid", "overlap", "probes"} }
   \cup { ScenVec(<<a, b>>, "plain") : a \in EditNames, b \in EditNames }
+  \* storm: accepted reloads in quick succession, the mesh is not given time to settle in between
+  \cup { ScenVec(<<"start", "cost_D", "start", "drop_D", "start", "cost_D", "start", "start">>, "storm"),
+          ScenVec(<<"start", "start", "start", "start", "start", "start", "start", "start">>, "storm") }
 ASSUME DumpFile = "" \/ ndJsonSerialize(DumpFile, SetToSeq(Scenarios))
 =============================================================================
